@@ -8,6 +8,12 @@
 using namespace grv;
 
 namespace {
+// hook events 6 / 7 of Segment::justify: the chain with the line-end markers in, and after they came out
+FILE *g_jtr = 0; int g_allbase = 0;      // g_allbase: left-to-right segment and no slot of the justified line is attached to another
+void just_sink(int ev, long a, long b, long c, long d) {
+    if (!g_jtr || (ev != 6 && ev != 7)) return;
+    fprintf(g_jtr, "{\"e\":\"%s\",\"le\":%ld,\"rev\":%ld,\"reach\":%ld,\"linked\":%ld,\"n\":%ld,\"allbase\":%d}\n", ev == 6 ? "Markers" : "Unmarked", a & 1, (a >> 1) & 1, b, c, d, g_allbase);
+}
 struct Line { std::vector<int> ids; };
 std::string arr2(const std::vector<std::vector<int>> &v) {
     std::string r = "[";
@@ -98,7 +104,11 @@ GRV_CMD(segapi) {
                     const std::string wd = (*o)["width"].s;
                     const double width = wd == "neg" ? -1.0 : wd == "zero" ? 0.0 : wd == "natural" ? natural : 2 * natural;
                     fflush(tr); alarm(10);
+                    g_allbase = (dir & 1) ? 0 : 1;      // (in a right-to-left segment the sibling links of the bases run backwards)
+                    for (int id : ln) if (gr_slot_attached_to(slots[id - 1])) g_allbase = 0;
+                    g_jtr = tr; g_rule_sink = just_sink;
                     const float ret = gr_seg_justify(seg, head, gf, width, gr_justFlags(int((*o)["flags"].num())), pick((*o)["pf"].s), pick((*o)["pl"].s));
+                    g_rule_sink = 0; g_jtr = 0;
                     alarm(0);
                     ++ncalls;
                     observe(finite, gids, fw, bw);
